@@ -22,7 +22,7 @@ static size_t g_win_o, g_win_t, g_used0;
 static uint8_t *g_stream; static size_t g_stream_n, g_stream_cap;
 static volatile int g_stopped, g_done, g_paused, g_was_paused; static unsigned g_wait_done, g_pause_after;
 static unsigned g_on_timeout /*0 stop,1 continue*/, g_on_eof_ret, g_every_read_reset, g_stop_after /* bytes, 0 = never */;
-static unsigned g_event_flags, g_task_flags, g_sfio; static uint64_t g_timeout_ms;
+static unsigned g_event_flags, g_task_flags, g_sfio, g_use_tcp; static uint64_t g_timeout_ms;
 static int g_sv[2];
 static uint8_t *g_payload; static size_t g_P;
 static uint64_t g_nviol;
@@ -197,7 +197,11 @@ static void *feeder(void *arg) {
 		TM_LOG(EV_FEED, 0, off, n, 0);
 	}
 out:
-	if (g_close_mode == 1) { close(g_sv[1]); g_sv[1] = -1; }
+	if (g_close_mode == 3) { /* abortive close: RST */
+		struct linger lg = {1, 0}; struct timespec ts = {0, 2000000};
+		nanosleep(&ts, NULL);
+		setsockopt(g_sv[1], SOL_SOCKET, SO_LINGER, &lg, sizeof(lg)); close(g_sv[1]); g_sv[1] = -1;
+	} else if (g_close_mode == 1) { close(g_sv[1]); g_sv[1] = -1; }
 	else if (g_close_mode == 2) shutdown(g_sv[1], SHUT_WR);
 	TM_LOG(EV_FEED, 2, off, 0, g_close_mode);
 	return NULL;
@@ -232,7 +236,7 @@ int main(void) {
 	g_S = vin_u32(&in); g_win_o = vin_u32(&in); g_win_t = vin_u32(&in);
 	g_event_flags = vin_u8(&in); g_task_flags = vin_u8(&in); g_sfio = vin_u8(&in); g_timeout_ms = vin_u32(&in);
 	g_on_timeout = vin_u8(&in); g_on_eof_ret = vin_u8(&in); g_every_read_reset = vin_u8(&in); g_stop_after = vin_u32(&in);
-	g_close_mode = vin_u8(&in); quiesce_ms = vin_u32(&in); g_wait_done = vin_u8(&in); g_pause_after = vin_u32(&in);
+	g_close_mode = vin_u8(&in); quiesce_ms = vin_u32(&in); g_wait_done = vin_u8(&in); g_pause_after = vin_u32(&in); g_use_tcp = vin_u8(&in);
 	g_drain_chunk = vin_u32(&in); g_drain_gap_us = vin_u32(&in); g_drain_stop_after = vin_u32(&in); sndbuf = vin_u32(&in); nclients = vin_u16(&in);
 	pp = vin_blob(&in, &pn); g_P = pn; g_payload = malloc(pn + 1); memcpy(g_payload, pp, pn);
 	g_nfrags = vin_u16(&in); g_frags = calloc(g_nfrags + 1, sizeof(frag_t));
@@ -256,8 +260,18 @@ int main(void) {
 		memset(&lst, 0, sizeof(lst)); lst.sin_family = AF_INET; lst.sin_addr.s_addr = htonl(INADDR_LOOPBACK); lst.sin_port = 0;
 		if (bind(lfd, (struct sockaddr *)&lst, sizeof(lst)) || listen(lfd, 64)) { fprintf(stderr, "listen failed\n"); return 3; }
 		sl = sizeof(lst); getsockname(lfd, (struct sockaddr *)&lst, &sl);
+	} else if (g_use_tcp && g_mode == 1) { /* TCP loopback pair: the peer can reset the connection */
+		int l = socket(AF_INET, SOCK_STREAM, 0), one = 1; struct sockaddr_in a; socklen_t al = sizeof(a);
+		memset(&a, 0, sizeof(a)); a.sin_family = AF_INET; a.sin_addr.s_addr = htonl(INADDR_LOOPBACK);
+		if (bind(l, (struct sockaddr *)&a, sizeof(a)) || listen(l, 4) || getsockname(l, (struct sockaddr *)&a, &al)) { fprintf(stderr, "tcp listen failed\n"); return 3; }
+		g_sv[1] = socket(AF_INET, SOCK_STREAM, 0);
+		if (connect(g_sv[1], (struct sockaddr *)&a, sizeof(a))) { fprintf(stderr, "tcp connect failed\n"); return 3; }
+		g_sv[0] = accept4(l, NULL, NULL, SOCK_NONBLOCK);
+		close(l);
+		setsockopt(g_sv[1], IPPROTO_TCP, 1 /* TCP_NODELAY */, &one, sizeof(one));
+		if (g_sv[0] < 0) { fprintf(stderr, "tcp accept failed\n"); return 3; }
 	} else if (socketpair(AF_UNIX, (g_mode == 3 ? SOCK_DGRAM : SOCK_STREAM) | SOCK_NONBLOCK, 0, g_sv)) { fprintf(stderr, "socketpair failed\n"); return 3; }
-	if (g_mode != 4) { int fl = fcntl(g_sv[1], F_GETFL); fcntl(g_sv[1], F_SETFL, fl & ~O_NONBLOCK); }
+	if (g_mode != 4 && !g_use_tcp) { int fl = fcntl(g_sv[1], F_GETFL); fcntl(g_sv[1], F_SETFL, fl & ~O_NONBLOCK); }
 	if (sndbuf && g_mode == 2) { int v = (int)sndbuf; setsockopt(g_sv[0], SOL_SOCKET, SO_SNDBUF, &v, sizeof(v)); }
 
 	tp_settings_def(&s); s.threads_max = 2; s.flags = 0; s.tpt_on_start = on_start;
